@@ -79,7 +79,7 @@ class Prog:
         txt, first = s.text, (s.toks[0][0] if s.toks else "")
         loc = "%s:%d" % (self.an.fns[fn]["file"], s.line)
         if first == "return":
-            return ([] if self.fwd(s, fn) or self.an.fns[fn]["aware"] and not self.an.closed_like_return(s) else []) + [("ret",)]
+            return [("ret",)]      # a return hands its value to the caller: forwarding, never a use (documented limitation)
         if first == "break":
             return [("brk",)]
         if first == "continue":
@@ -471,7 +471,6 @@ def has_ctx_node(p, nodes):
 
 def build(repo, cfg):
     an = S.Analysis(repo, cfg)
-    an.closed_like_return = lambda s: True
     p = Prog(an)
     for key in an.fns:
         p.body(key)
